@@ -270,8 +270,8 @@ func (its *document) PutToObject(key string, value interface{}) (Document, error
 	if err := its.assertLocalOp("PutToObject", TypeJSONObject, false); err != nil {
 		return nil, err
 	}
-	if key == "" || isNullValue(value) {
-		return nil, errors.DatatypeIllegalParameters.New(its.L(), "neither empty key nor null value is not allowed")
+	if isNullValue(value) { // the empty key is a legal JSON key (PatchByJSON relies on it)
+		return nil, errors.DatatypeIllegalParameters.New(its.L(), "null value is not allowed")
 	}
 	op := operations.NewDocPutInObjOperation(its.snapshot().getCreateTime(), key, value)
 	removed, err := its.SentenceInTx(its.TxCtx, op, true)
